@@ -182,6 +182,33 @@ def run(ctx):
     ctx.sample(r3.replays[len(r3.replays) // 3])
     replay_cases(ctx, r3.replays)
     trace_validation(ctx)
+    range_laws_unbounded(ctx)
+
+
+def range_laws_unbounded(ctx):
+    """RangesProof.tla: the range-algebra laws for all natural-number offsets, proved by TLAPS (the bounded
+    Ranges.tla run above binds the operations to the code; this lifts the laws beyond the abstract offset set)"""
+    import re
+    import shutil
+    import subprocess
+    import tempfile
+    from vcheck import ToolError, ROOT
+    if not shutil.which("tlapm"):
+        ctx.note("tlapm not on PATH: the unbounded range laws were not re-proved in this run")
+        return
+    d = tempfile.mkdtemp(prefix="tlaps-", dir=os.environ["VERIF_WORK"])
+    try:
+        shutil.copy(os.path.join(ROOT, "spec", "locate", "RangesProof.tla"), d)
+        p = subprocess.run(["timeout", "900", "tlapm", "--threads", "4", "RangesProof.tla"], cwd=d, capture_output=True, text=True)
+        out = p.stdout + p.stderr
+        m = re.search(r"All (\d+) obligations? proved", out)
+        if not m:
+            raise ToolError("TLAPS did not prove RangesProof.tla:\n" + out[-1500:])
+        ctx.extra["tlaps_obligations"] = int(m.group(1))
+        ctx.extra["tlaps_discharged"] = int(m.group(1))
+        ctx.extra["tlaps_module"] = "spec/locate/RangesProof.tla (8 theorems: intersect/cover commute, cover = least upper bound, intersect = greatest lower bound = set intersection, contains_range = subset, ordering, shifting)"
+    finally:
+        shutil.rmtree(d, ignore_errors=True)
 
 
 def slices(ctx, cases):
